@@ -55,7 +55,8 @@ pub fn translate(kind: u8, pc: usize, pr: usize, sc: usize, sr: usize, ec: usize
 /// behind the failed assertion), column shift symbolic over the full range.
 pub fn translate_rejected(kind: u8, pc: usize, pr: usize, which: u8) {
     let cells = nd::bytes::<16>();
-    let gm = geometry(kind, pc, pr, Pick::Cols(if pc > 1 { 1 } else { 0 }, pc));
+    // fixed window: the offending row shift must be a concrete number
+    let gm = geometry(kind, pc, pr, Pick::Fixed((if pc > 1 { 1 } else { 0 }, if pr > 1 { 1 } else { 0 }), (pc, pr)));
     let (mc, mr) = if which == 0 {
         let mc = nd::usize_();
         nd::assume(mc > gm.size.0);
